@@ -616,6 +616,19 @@ def run(ctx):
             rep.violation(dict(kind="invalid-parameter-accepted", law=text.split("(")[1], outcome=oc[0]),
                           "C08 fails on the implementation: %s gives %s; a law with such a parameter must be rejected with a diagnosed error"
                           % (text, show_outcome(oc)), dict(text=text, impl=show_outcome(oc), expected="a diagnosed error"))
+    # ---------------- 0a''. thresholds beyond the float range on the continuous laws: either a diagnosed error (the
+    # threshold cannot be converted) or the true cdf value there, never the value of the opposite tail
+    FAR_T = [("P(Gaussian(0,1) <= -(10^400))", 0), ("P(Gaussian(0,1) > -(10^400))", 1), ("P(Gaussian(0,1) <= 10^400)", 1),
+             ("P(-(10^400) < Gaussian(0,1) < 0)", Fraction(1, 2)), ("P(0 < Gaussian(0,1) < 10^400)", Fraction(1, 2)),
+             ("P(Exponential(1) <= -(10^400))", 0), ("P(Exponential(1) <= 10^400)", 1), ("P(Exponential(1) > 10^400)", 0),
+             ("P(Uniform(0,1) <= -(10^400))", 0), ("P(Uniform(0,1) <= 10^400)", 1), ("P(Gaussian(0,1) <= -1e308)", 0),
+             ("P(Gaussian(5,2) >= -(10^400))", 1), ("P(Gaussian(5,2) < -(10^400))", 0)]
+    for (text, exp), oc in zip(FAR_T, [outcome(o) for o in C.run_impl(impl_case, [t for t, _ in FAR_T], ctx["rundir"], limit=10.0)]):
+        ok = (oc[0] == "err" and oc[2]) or (oc[0] == "val" and close(oc[1], Fraction(exp)))
+        if not ok:
+            rep.violation(dict(kind="wrong-value" if oc[0] == "val" else "no-value", cause="threshold beyond the float range", outcome=oc[0]),
+                          "C08 fails on the implementation: %s gives %s; the cumulative distribution function there is %s (a diagnosed error would also do)"
+                          % (text, show_outcome(oc), exp), dict(text=text, impl=show_outcome(oc), expected=str(exp)))
     # ---------------- 0b. deep-tail consistency of a discrete law with a large mean: the point mass must be the
     # difference of the cumulative values (P(X=k) = P(X<=k) - P(X<k)) and satisfy pmf(k+1)/pmf(k) = mu/(k+1),
     # across the place where Poisson.pmf switches to its logarithmic formula (k > 100)
